@@ -46,14 +46,21 @@ func pending(en *tl.Engine) {
 			}
 			en.PendingBlockedProducer(n, q)
 			en.CancelPoint(n, q, "Q1", "idle", false)
+			en.Reentrant(n, q)
 		}
+		en.TimeoutRaces(1, 1, 1)
+		en.TimeoutRaces(2, 2, 1)
+		en.RequireTimeoutRace()
 	}
 }
 
 func stress(en *tl.Engine) {
 	small, big := reps(en, 300, 3000), reps(en, 50, 600)
 	for i := 0; i < small; i++ {
-		n, q := 1+en.Rng.Intn(3), en.Rng.Intn(3)
+		n, q := 1+en.Rng.Intn(2), en.Rng.Intn(3)
+		if i%6 == 0 {
+			n = 3 // wide lanes with Status pollers are the acceptor's expensive case: fewer of them
+		}
 		en.Stress(n, q, tl.StressOpt{PanicPct: 40, Observers: 1, CancelMode: 0, Kinds: true}, i)
 	}
 	for i := 0; i < big; i++ {
